@@ -43,6 +43,8 @@ type vNode struct {
 	udpOut []*vDatagram
 	tunOut [][]byte
 	stop   chan struct{}
+	held   bool          // the drainer leaves the node's udp transmit queue alone: a sender blocks once it is full
+	kick   chan struct{} // wakes the drainer after held changed
 }
 
 type vNet struct {
@@ -71,7 +73,7 @@ func (n *vNet) AddNode(v cert.Version, name, networks string, overrides m) *vNod
 		base[k] = val
 	}
 	ctrl, vpn, udpAddr, cfg := newSimpleServer(v, n.CA, n.CAKey, name, networks, base)
-	nd := &vNode{Name: name, Ctrl: ctrl, Vpn: vpn, UDP: udpAddr, Cfg: cfg, stop: make(chan struct{})}
+	nd := &vNode{Name: name, Ctrl: ctrl, Vpn: vpn, UDP: udpAddr, Cfg: cfg, stop: make(chan struct{}), kick: make(chan struct{}, 1)}
 	n.Nodes[name] = nd
 	n.byUDP[udpAddr] = nd
 	return nd
@@ -90,10 +92,18 @@ func (n *vNet) drain(nd *vNode) {
 	udpc, tunc := nd.Ctrl.GetUDPTxChan(), nd.Ctrl.GetTunTxChan()
 	go func() {
 		for {
+			uc := udpc
+			nd.mu.Lock()
+			if nd.held {
+				uc = nil
+			}
+			nd.mu.Unlock()
 			select {
 			case <-nd.stop:
 				return
-			case p, ok := <-udpc:
+			case <-nd.kick:
+				continue
+			case p, ok := <-uc:
 				if !ok || p == nil {
 					udpc = nil
 					continue
@@ -144,6 +154,37 @@ func (n *vNet) Stop() {
 	synctest.Wait()
 	for _, nd := range n.sorted() {
 		close(nd.stop)
+	}
+	synctest.Wait()
+}
+
+// Hold stops the harness from taking datagrams out of the node's transmit queue (10 slots in the tester socket), so that
+// a goroutine of the node that sends more than that parks in the middle of what it is doing; Release lets everything go.
+// Between the two the harness can hand the node other stimuli: the node's own goroutines really interleave.
+func (nd *vNode) Hold() {
+	if nd.kick == nil {
+		panic("verif: vNode without kick channel")
+	}
+	nd.mu.Lock()
+	nd.held = true
+	nd.mu.Unlock()
+	select {
+	case nd.kick <- struct{}{}:
+	default:
+	}
+	synctest.Wait()
+}
+
+func (nd *vNode) Release() {
+	if nd.kick == nil {
+		panic("verif: vNode without kick channel")
+	}
+	nd.mu.Lock()
+	nd.held = false
+	nd.mu.Unlock()
+	select {
+	case nd.kick <- struct{}{}:
+	default:
 	}
 	synctest.Wait()
 }
